@@ -79,7 +79,44 @@ def _ifswap(tree):
     return tree
 
 
-KINDS = {"unparse": lambda t: t, "rename": _rename, "pad": _pad, "kwshuffle": _kwshuffle, "ifswap": _ifswap}
+def _nodoc(tree):
+    """Remove every docstring (function, class, module)."""
+    for node in ast.walk(tree):
+        if isinstance(node, (ast.FunctionDef, ast.AsyncFunctionDef, ast.ClassDef, ast.Module)):
+            b = node.body
+            if b and isinstance(b[0], ast.Expr) and isinstance(b[0].value, ast.Constant) and isinstance(b[0].value.value, str):
+                node.body = b[1:] or [ast.Pass()]
+    return tree
+
+
+def _pure(e):
+    return not any(isinstance(n, (ast.Call, ast.Yield, ast.YieldFrom, ast.Await, ast.NamedExpr, ast.Subscript, ast.Attribute)) for n in ast.walk(e))
+
+
+def _swapassign(tree):
+    """Swap adjacent `a = <pure expr>; b = <pure expr>` (plain names, no calls / attribute / subscript reads, no mutual use)."""
+    for node in ast.walk(tree):
+        for field in ("body", "orelse", "finalbody"):
+            v = getattr(node, field, None)
+            if not isinstance(v, list):
+                continue
+            i = 0
+            while i + 1 < len(v):
+                a, b = v[i], v[i + 1]
+                if (isinstance(a, ast.Assign) and isinstance(b, ast.Assign) and len(a.targets) == 1 and len(b.targets) == 1
+                        and isinstance(a.targets[0], ast.Name) and isinstance(b.targets[0], ast.Name) and a.targets[0].id != b.targets[0].id
+                        and _pure(a.value) and _pure(b.value)
+                        and a.targets[0].id not in {n.id for n in ast.walk(b.value) if isinstance(n, ast.Name)}
+                        and b.targets[0].id not in {n.id for n in ast.walk(a.value) if isinstance(n, ast.Name)}):
+                    v[i], v[i + 1] = b, a
+                    i += 2
+                else:
+                    i += 1
+    return tree
+
+
+KINDS = {"unparse": lambda t: t, "rename": _rename, "pad": _pad, "kwshuffle": _kwshuffle, "ifswap": _ifswap,
+         "nodoc": _nodoc, "swapassign": _swapassign}
 
 
 def make_twin(src: Path, dst: Path, kind: str) -> int:
